@@ -7,13 +7,15 @@ import gauss_common as gc
 
 
 def streams(ctx, res):
-    exe = gc.build(ctx)
-    if not exe:
+    exes = gc.build_all(ctx)
+    if 0 not in exes:
         return {}
-    gc.run_mode(ctx, res, exe, "c11")
+    gc.run_all(ctx, res, exes, "c11")
+    out_cov = gc.neg_flagged_coverage(ctx, res, "+full:negative")
     for md in res.modeldiff:
         ctx.setdefault("failing_inputs", []).append({"kind": "implementation-differs-from-verified-model", **md})
-    return {"proved": "reads_in_bounds (+ over-read witness for bufLen < wp), writes_exact, terminates, consumption_disjoint of the getNoise loop model, for all rlen, bufLen >= wp, tables of the right shape, buffers",
+    return {"out_class_dimension": {"getNoise_calls_with_a_negative_sample_from_a_flagged_cell (out_class/index width/depth)": out_cov},
+            "proved": "reads_in_bounds (+ over-read witness for bufLen < wp), writes_exact, terminates, consumption_disjoint of the getNoise loop model, for all rlen, bufLen >= wp, tables of the right shape, buffers",
             "observed_not_proved": "real heap accesses of constructor / getNoise / destructor: ASan + UBSan + LSan build, every call preceded by a PARAMS line (a report = concrete failing input)",
             "lifecycles": "glc lines: residue of the real allocator per lifecycle (blocks, bytes) vs Model/GaussLife.lean (per-thread MPFR caches released by the constructor); "
                           "proved: lifecycle_releases_all (every event list, any threads / order / number of samplers), release_in_destructor_witness; "
@@ -29,7 +31,8 @@ PROP = {
     "streams": streams, "search": search,
     "rule": ("getNoise(out, rlen) with a scripted random stream, exact-size output buffer pre-filled with a sentinel: request lengths 0..64 (quick) / every length 0..4096 on the 8-bit depth-2 sampler and every 4th/8th length on three more samplers (thorough) "
              "and 4096, stream kinds random / all-zero / all-ones / barrier copies / barrier with last word +-1 / barrier on a long prefix / words of flagged cells; "
-             "both index widths and depths; per line: observed buffer length (must be >= wp), number and size of fastrandombytes requests, all outputs compared with the "
+             "both index widths and depths; out_class int32_t (all of this) and int64_t / uint64_t / uint32_t / int16_t / uint16_t (lengths 0..64, 257; also stream kind 'barriers with a negative value, last word +-1'), "
+             "outputs compared as the integer the out_class object denotes read as the signed type of its width; per line: observed buffer length (must be >= wp), number and size of fastrandombytes requests, all outputs compared with the "
              "loop model and with a table-free reference decoder (inverse CDF on consecutive pieces), model trace re-checked (in bounds, consecutive, disjoint); "
              "constructor/getNoise/destructor on one thread over the parameter grid with m = 1, 2^20 and sample budgets that are not powers of two, lambda not a multiple of 8, "
              "centres that are not dyadic, all three constructors (glife); "
